@@ -1469,7 +1469,7 @@ class Operation(_IRNode):
         if (
             self.parent is not None
             and other.parent is not None
-            and context.get(self.parent) != other.parent
+            and context.get(self.parent, self.parent) != other.parent
         ):
             return False
         if not all(
